@@ -33,7 +33,7 @@ CONFIGS = {
             "thorough": [("ControllerMC_share.cfg", "edges"), ("ControllerMC_crash_sim.cfg", "sim")]},
 }
 SAMPLE = {"quick": 25000, "thorough": None}
-SIM = {"num": 3000, "depth": 45}
+SIM = {"num": 8000, "depth": 60}
 
 
 def mapping():
